@@ -5,7 +5,7 @@ import LlgoVerif.Model.Chan
 
     reset | variant current|fixed | chan <cap> | thread <op>…      configuration (answers `ok`); the variant
                                            (which z_chan.go the model mirrors, see `Cfg`) survives `reset`
-      op:  s<c>:<v>  r<c>  c<c>  S:b:<cases>  S:n:<cases>     cases: `-` or `,`-separated  s<c>=<v> | r<c>
+      op:  s<c>:<v>  r<c>  c<c>  S:b:<cases>  S:n:<cases>     cases: `-` or `,`-separated  s<c>=<v> | r<c>   (<c> = N: nil channel)
     step <t> | wake <t>                    one scheduler choice; answers the observable state or `bad-step`
     prio <t>,<t>,… | auto                  `auto` steps the first runnable thread of the priority list
     state | dump                           observable state | full model state (diagnostics)
@@ -27,9 +27,13 @@ def parseCase (s : String) : Option Case :=
   match s.toList with
   | 's' :: rest =>
     match (String.ofList rest).splitOn "=" with
-    | [c, v] => do pure { c := (← c.toNat?), send := true, v := (← v.toNat?) }
+    | [c, v] =>
+      if c == "N" then do pure { c := 0, send := true, v := (← v.toNat?), isNil := true }
+      else do pure { c := (← c.toNat?), send := true, v := (← v.toNat?), isNil := false }
     | _ => none
-  | 'r' :: rest => do pure { c := (← (String.ofList rest).toNat?), send := false, v := 0 }
+  | 'r' :: rest =>
+    if String.ofList rest == "N" then some { c := 0, send := false, v := 0, isNil := true }
+    else do pure { c := (← (String.ofList rest).toNat?), send := false, v := 0, isNil := false }
   | _ => none
 
 def parseOp (s : String) : Option Op :=
